@@ -75,3 +75,10 @@ func EReadBits(data []byte, nbits []int) ([]uint32, []bool) {
 func ERefsWithLocalCache(argb []uint32, cacheBits int, refs []ERef) []ERef {
 	return lossless.VerifRefsWithLocalCache(argb, cacheBits, refs)
 }
+
+// EGroup mirrors lossless.VerifGroup.
+type EGroup = lossless.VerifGroup
+
+func EReadGroup(lens [5][]uint8, cacheBits int) (EGroup, error) {
+	return lossless.VerifReadGroup(lens, cacheBits)
+}
